@@ -91,6 +91,7 @@ func applyOp(recs [][]byte, op []int) [][]byte {
 
 type input struct {
 	id, vers        uint16
+	pad, padx       int
 	writes          [][]byte
 	close           bool
 	ops             [][]int
@@ -100,7 +101,7 @@ type input struct {
 func decode(in hv.Val) input {
 	l := hv.AsList(in)
 	cfg := hv.AsList(l[0])
-	x := input{id: uint16(hv.AsInt(cfg[0])), vers: uint16(hv.AsInt(cfg[1]))}
+	x := input{id: uint16(hv.AsInt(cfg[0])), vers: uint16(hv.AsInt(cfg[1])), pad: int(hv.AsInt(cfg[7])), padx: int(hv.AsInt(cfg[8]))}
 	for _, w := range hv.AsList(l[1]) {
 		x.writes = append(x.writes, hv.AsBytes(w))
 	}
@@ -116,8 +117,28 @@ func decode(in hv.Val) input {
 	return x
 }
 
-func tamper(x input) []byte {
+// protect runs the real sending side (Conn.Write / Close), or the foreign-peer writer for padding styles 1..3
+func protect(x input) []byte {
+	if x.pad != 0 {
+		return bfe_tls.VerifC42ProtectPeer(x.id, x.vers, x.writes, x.close, x.pad, x.padx)
+	}
 	stream, _ := bfe_tls.VerifC42Protect(x.id, x.vers, x.writes, x.close)
+	return stream
+}
+
+// relevantEdit: did the edits change anything the receiver reads (with close_notify: the bytes up to and
+// including it; without: the whole stream)?
+func relevantEdit(x input) bool {
+	orig := protect(x)
+	t := tamper(x)
+	if x.close {
+		return len(t) < len(orig) || string(t[:len(orig)]) != string(orig)
+	}
+	return string(t) != string(orig)
+}
+
+func tamper(x input) []byte {
+	stream := protect(x)
 	recs := splitRecords(stream)
 	for _, op := range x.ops {
 		recs = applyOp(recs, op)
@@ -155,6 +176,7 @@ func setup(string) {
 			combos = append(combos, suiteVer{id, v})
 		}
 	}
+	buildMatrix()
 }
 
 func genWrite(r *hv.Rng) []byte {
@@ -173,19 +195,33 @@ func genWrite(r *hv.Rng) []byte {
 }
 
 func gen(r *hv.Rng, i int, tier string) (string, hv.Val) {
+	nopsOverride := 1
+	if i < len(matrix) {
+		return genMatrix(matrix[i], i)
+	}
 	sv := combos[i%len(combos)]
-	kind, mac, bs, expl, ovh, _, _ := bfe_tls.VerifC42Params(sv.id, sv.vers)
+	kind, _, bs, _, _, _, _ := bfe_tls.VerifC42Params(sv.id, sv.vers)
 	x := input{id: sv.id, vers: sv.vers, cut: -1}
+	if kind == 1 && r.Chance(1, 4) {
+		x.pad = r.Range(1, 3)
+		if x.pad == 2 {
+			x.padx = r.Range(0, 256/bs-1)
+		}
+		if sv.vers == 0x0300 && x.pad == 2 {
+			// SSLv3 does not authenticate padding bytes: edits inside a long padding are not detected
+			// (outside the symbolic model, see props/C42.json); long padding is sent to SSLv3 untampered only
+			nopsOverride = 0
+		}
+	}
 	nw := r.Intn(5)
 	for k := 0; k < nw; k++ {
 		x.writes = append(x.writes, genWrite(r))
 	}
 	x.close = r.Chance(3, 4)
-	stream, _ := bfe_tls.VerifC42Protect(x.id, x.vers, x.writes, x.close)
-	recs := splitRecords(stream)
+	recs := splitRecords(protect(x))
 	class := "clean"
 	nops := 0
-	switch r.Intn(8) {
+	switch r.Intn(8) * nopsOverride {
 	case 0:
 	case 1, 2, 3, 4:
 		nops = 1
@@ -221,6 +257,14 @@ func gen(r *hv.Rng, i int, tier string) (string, hv.Val) {
 				off = 5 // first byte: explicit IV / nonce
 			case 1:
 				off = 5 + bl - 1 // last byte: MAC / tag / padding
+			}
+			if kind == 1 && sv.vers == 0x0300 && bl <= bs {
+				continue
+			}
+			if kind == 1 && sv.vers == 0x0300 && off >= 5+bl-bs {
+				// SSLv3: a garbled final block that is all padding is accepted with probability 1/256
+				// (POODLE); not predictable by the symbolic model
+				off = 5 + r.Intn(bl-bs)
 			}
 			op, name = []int{1, idx, off, 1 << uint(r.Intn(8))}, "flip-body"
 			bodyFlipped = true
@@ -302,14 +346,28 @@ func gen(r *hv.Rng, i int, tier string) (string, hv.Val) {
 			class += "+cut"
 		}
 	}
-	if len(x.writes) == 0 && !x.close && len(x.ops) == 0 {
-		class = "triv-empty"
-	}
 	x.chunk = []int{0, 0, 1, 3, 7, 100}[r.Intn(6)]
 	x.buf = []int{1, 5, 64, 1024, 4096}[r.Intn(5)]
 	if total > 3000 && x.buf < 64 {
 		x.buf = 64
 	}
+	return finish(class, x)
+}
+
+// finish normalises a script that does not change what the receiver reads to the empty script (wf_C42)
+// and encodes the input.
+func finish(class string, x input) (string, hv.Val) {
+	if (len(x.ops) > 0 || x.cut >= 0) && !relevantEdit(x) {
+		x.ops, x.cut = nil, -1
+		class = "clean-noop"
+	}
+	if len(x.writes) == 0 && !x.close && len(x.ops) == 0 && x.cut < 0 {
+		class = "triv-empty"
+	}
+	if x.pad != 0 {
+		class = "pad" + string(rune('0'+x.pad)) + "-" + class
+	}
+	kind, mac, bs, expl, ovh, _, _ := bfe_tls.VerifC42Params(x.id, x.vers)
 	ws := hv.L{}
 	for _, w := range x.writes {
 		ws = append(ws, hv.B(w))
@@ -319,8 +377,101 @@ func gen(r *hv.Rng, i int, tier string) (string, hv.Val) {
 		ops = append(ops, hv.LI(o))
 	}
 	return class, hv.L{
-		hv.LI([]int{int(sv.id), int(sv.vers), kind, mac, bs, expl, ovh}),
+		hv.LI([]int{int(x.id), int(x.vers), kind, mac, bs, expl, ovh, x.pad, x.padx}),
 		ws, hv.Bool(x.close), ops, hv.I(x.cut), hv.I(x.chunk), hv.I(x.buf)}
+}
+
+// ---- structured stream: every (suite, version) x every tamper kind, and every CBC (suite, version) x
+// every foreign padding style, on a fixed three-record session ----
+type matrixCase struct {
+	sv        suiteVer
+	kind      int
+	pad, padx int
+}
+
+var matrix []matrixCase
+
+const nKinds = 20
+
+func buildMatrix() {
+	for _, sv := range combos {
+		for k := 0; k < nKinds; k++ {
+			matrix = append(matrix, matrixCase{sv: sv, kind: k})
+		}
+		ck, _, bs, _, _, _, _ := bfe_tls.VerifC42Params(sv.id, sv.vers)
+		if ck == 1 {
+			maxx := 256/bs - 1
+			for _, ps := range [][2]int{{1, 0}, {2, 1}, {2, maxx}, {2, maxx - 1}, {3, 0}} {
+				for _, k := range []int{0, 7, 9, 11} {
+					if sv.vers == 0x0300 && ps[0] == 2 && k != 0 {
+						continue
+					}
+					matrix = append(matrix, matrixCase{sv: sv, kind: k, pad: ps[0], padx: ps[1]})
+				}
+			}
+		}
+	}
+}
+
+func genMatrix(mc matrixCase, i int) (string, hv.Val) {
+	x := input{id: mc.sv.id, vers: mc.sv.vers, pad: mc.pad, padx: mc.padx, cut: -1, close: true, buf: 64}
+	x.writes = [][]byte{[]byte("hello"), []byte("integrity!!"), []byte("x")}
+	if i%3 == 1 {
+		x.close = false
+	}
+	recs := splitRecords(protect(x))
+	n := len(recs)
+	t := 1 // target record: the second one, so that a genuine prefix is delivered first
+	bl := len(recs[t]) - 5
+	lens := 0
+	for _, rc := range recs {
+		lens += len(rc)
+	}
+	names := []string{"clean", "flip-type", "flip-vers-hi", "flip-vers-lo", "flip-len-hi", "flip-len-lo", "flip-len-lo1",
+		"flip-body-first", "flip-body-mid", "flip-body-last", "swap", "replay", "replay-later", "drop", "drop-last",
+		"forge-close", "trunc", "cut-boundary", "cut-header", "cut-body"}
+	switch mc.kind {
+	case 1:
+		x.ops = [][]int{{1, t, 0, 2}} // 23 -> 21: application data relabelled as alert
+	case 2:
+		x.ops = [][]int{{1, t, 1, 1}}
+	case 3:
+		x.ops = [][]int{{1, t, 2, 1 + i%3}}
+	case 4:
+		x.ops = [][]int{{1, t, 3, 1 << uint(i%7)}}
+	case 5:
+		x.ops = [][]int{{1, t, 4, 16}}
+	case 6:
+		x.ops = [][]int{{1, t, 4, 1}}
+	case 7:
+		x.ops = [][]int{{1, t, 5, 1 << uint(i%8)}}
+	case 8:
+		x.ops = [][]int{{1, t, 5 + bl/2, 1 << uint(i%8)}}
+	case 9:
+		x.ops = [][]int{{1, t, 5 + bl - 1, 1 << uint(i%8)}}
+	case 10:
+		x.ops = [][]int{{2, t, t + 1}}
+	case 11:
+		x.ops = [][]int{{3, t, t + 1}}
+	case 12:
+		x.ops = [][]int{{3, 0, n - 1}}
+	case 13:
+		x.ops = [][]int{{4, t}}
+	case 14:
+		x.ops = [][]int{{4, n - 1}}
+	case 15:
+		x.ops = [][]int{{5, t, 21, int(mc.sv.vers), 2}}
+	case 16:
+		x.ops = [][]int{{6, t, bl - bl%8 - 8*(i%2)}}
+	case 17:
+		x.cut = len(recs[0]) + len(recs[1])
+	case 18:
+		x.cut = len(recs[0]) + len(recs[1]) + 1 + i%4
+	case 19:
+		x.cut = len(recs[0]) + len(recs[1]) + 5 + i%bl
+	}
+	x.chunk = []int{0, 1, 7}[i%3]
+	return finish("m-"+names[mc.kind], x)
 }
 
 func main() {
